@@ -339,13 +339,20 @@ Definition unreadable_body (r : request) (a : areq) : bool :=
   match pf r with PfBad => true | _ => false end &&
   match a with ARefused c => N.eqb c 400 | _ => false end.
 
+(** A PUT whose body breaks off before its end: the statements ask that it fails and that
+    nothing changes, not for a particular status (a server may blame the sender: 400, or
+    itself: 500).  The model answers 500; the verdict accepts every status from 400 on. *)
+Definition put_breaks (a : areq) : bool :=
+  match a with APut _ _ true => true | _ => false end.
+
 Definition spec_ok_with (tb ta : path -> string) (root : path) (sb : option node) (r : request) (o : response) (sb' : option node) : bool :=
   let M := abs sb in
   let a := parse_req root r in
   let tag := tb (req_target root r) in
   let refs := refusals root M a (cond_refusals tag r) in
   (status_ok (status o) refs (success_status M a) ||
-   ((properly_nested a || unreadable_body r a) && N.leb 400 (status o) && N.ltb (status o) 500)) &&
+   ((properly_nested a || unreadable_body r a) && N.leb 400 (status o) && N.ltb (status o) 500) ||
+   (put_breaks a && N.leb 400 (status o) && N.ltb (status o) 600)) &&
   match refs with
   | _ :: _ => amap_agree (relevant_paths sb sb' a) (abs sb') M   (* refused: nothing changes *)
   | [] =>
